@@ -89,7 +89,12 @@ def _create_new_header(
         )
 
     # Verify that the result contains all ReuseInfo.
-    new_reuse_info = extract_reuse_info(result)
+    try:
+        new_reuse_info = extract_reuse_info(result)
+    except (ExpressionError, ParseError) as error:
+        # The template itself holds a tag that cannot be parsed.
+        _LOGGER.debug(result)
+        raise MissingReuseInfoError() from error
     if (
         reuse_info.copyright_lines != new_reuse_info.copyright_lines
         or set(map(str, reuse_info.spdx_expressions))
